@@ -77,6 +77,16 @@ impl DependencyGraph {
         // As such we are keeping the cond var alive until the reference in the edge drops.
         unsafe { me.add_edge(from_id, database_key, to_id, cvar) };
 
+        #[cfg(feature = "verif_hooks")]
+        {
+            crate::verif_hooks::trace(crate::verif_hooks::TraceEvent::Block {
+                waiter: crate::verif_hooks::thread_u64(&from_id),
+                key: crate::verif_hooks::key_pair(database_key),
+                owner: crate::verif_hooks::thread_u64(&to_id),
+            });
+            crate::verif_hooks::about_to_block();
+        }
+
         // Release the mutex that prevents `database_key`
         // from completing, now that the edge has been added.
         drop(query_mutex_guard);
@@ -84,6 +94,11 @@ impl DependencyGraph {
         loop {
             if let Some(result) = me.wait_results.remove(&from_id) {
                 debug_assert!(!me.edges.contains_key(&from_id));
+                #[cfg(feature = "verif_hooks")]
+                crate::verif_hooks::trace(crate::verif_hooks::TraceEvent::Resume {
+                    thread: crate::verif_hooks::thread_u64(&from_id),
+                    result: result as u8,
+                });
                 return result;
             }
             me = cvar.wait(me);
@@ -129,6 +144,12 @@ impl DependencyGraph {
             .remove(&database_key)
             .unwrap_or_default();
 
+        #[cfg(feature = "verif_hooks")]
+        crate::verif_hooks::trace(crate::verif_hooks::TraceEvent::Release {
+            key: crate::verif_hooks::key_pair(database_key),
+            result: wait_result as u8,
+        });
+
         for from_id in dependents {
             self.unblock_runtime(from_id, wait_result);
         }
@@ -140,6 +161,12 @@ impl DependencyGraph {
     fn unblock_runtime(&mut self, id: ThreadId, wait_result: WaitResult) {
         let edge = self.edges.remove(&id).expect("not blocked");
         self.wait_results.insert(id, wait_result);
+
+        #[cfg(feature = "verif_hooks")]
+        crate::verif_hooks::trace(crate::verif_hooks::TraceEvent::Wake {
+            thread: crate::verif_hooks::thread_u64(&id),
+            result: wait_result as u8,
+        });
 
         // Now that we have inserted the `wait_results`,
         // notify the thread.
@@ -159,6 +186,11 @@ impl DependencyGraph {
             wait_result: WaitResult,
         ) {
             me.transferred.remove(&query);
+
+            #[cfg(feature = "verif_hooks")]
+            crate::verif_hooks::trace(crate::verif_hooks::TraceEvent::TransferEnded {
+                query: crate::verif_hooks::key_pair(query),
+            });
 
             for query in me.transferred_dependents.remove(&query).unwrap_or_default() {
                 me.unblock_runtimes_blocked_on(query, wait_result);
@@ -184,6 +216,11 @@ impl DependencyGraph {
     }
 
     pub(super) fn undo_transfer_lock(&mut self, database_key: DatabaseKeyIndex) {
+        #[cfg(feature = "verif_hooks")]
+        crate::verif_hooks::trace(crate::verif_hooks::TraceEvent::TransferEnded {
+            query: crate::verif_hooks::key_pair(database_key),
+        });
+
         if let Some((_, owner)) = self.transferred.remove(&database_key) {
             self.transferred_dependents
                 .get_mut(&owner)
@@ -331,6 +368,15 @@ impl DependencyGraph {
             }
         };
 
+        #[cfg(feature = "verif_hooks")]
+        crate::verif_hooks::trace(crate::verif_hooks::TraceEvent::Transfer {
+            query: crate::verif_hooks::key_pair(query),
+            new_owner: crate::verif_hooks::key_pair(new_owner),
+            new_owner_thread: crate::verif_hooks::thread_u64(&new_owner_thread),
+            from_thread: crate::verif_hooks::thread_u64(&current_thread),
+            thread_changed,
+        });
+
         // Register `c` as a dependent of `b`.
         let all_dependents = dg.transferred_dependents.entry(new_owner).or_default();
         debug_assert!(!all_dependents.contains(&new_owner));
@@ -419,6 +465,11 @@ impl DependencyGraph {
                         edge.blocked_on_id
                     );
                     edge.blocked_on_id = new_owner_thread;
+                    #[cfg(feature = "verif_hooks")]
+                    crate::verif_hooks::trace(crate::verif_hooks::TraceEvent::Retarget {
+                        waiter: crate::verif_hooks::thread_u64(dependent),
+                        new_owner_thread: crate::verif_hooks::thread_u64(&new_owner_thread),
+                    });
                     debug_assert!(
                         !edges.depends_on(new_owner_thread, *dependent),
                         "Circular reference between blocked edges: {edges:#?}"
